@@ -59,6 +59,7 @@ type c14Ctl struct {
 }
 
 type c14Run struct {
+	keys0    []*pause.ControlChans // the subscriptions of the workers, taken once all have subscribed
 	ws       []*c14Worker
 	cs       []*c14Ctl
 	panicked atomic.Bool
@@ -222,7 +223,18 @@ func c14Spawn(kind byte, w *c14Worker) {
 	}
 }
 
-func c14Caller(r *c14Run, c *c14Ctl, resume bool, start <-chan struct{}, ready *sync.WaitGroup) {
+// c14Spin busy-waits d: the goroutines of a round are released together and then staggered by
+// a few hundred nanoseconds each (derived from the input text), so that over many cases the
+// operations of concurrent calls meet at many different relative offsets.
+func c14Spin(d time.Duration) {
+	if d <= 0 {
+		return
+	}
+	for t := time.Now(); time.Since(t) < d; {
+	}
+}
+
+func c14Caller(r *c14Run, c *c14Ctl, resume bool, start <-chan struct{}, ready *sync.WaitGroup, jit time.Duration) {
 	defer func() {
 		if e := recover(); e != nil {
 			r.panicked.Store(true)
@@ -231,6 +243,7 @@ func c14Caller(r *c14Run, c *c14Ctl, resume bool, start <-chan struct{}, ready *
 	}()
 	ready.Done()
 	<-start
+	c14Spin(jit)
 	if resume {
 		pause.Resume()
 	} else {
@@ -238,13 +251,15 @@ func c14Caller(r *c14Run, c *c14Ctl, resume bool, start <-chan struct{}, ready *
 	}
 }
 
-func c14Stopper(cancel func(), start <-chan struct{}, ready *sync.WaitGroup) {
+func c14Stopper(cancel func(), start <-chan struct{}, ready *sync.WaitGroup, jit time.Duration) {
 	ready.Done()
 	<-start
+	c14Spin(jit)
 	cancel()
 }
 
 type c14Obs struct {
+	pcl    int // subscriptions that were removed and whose PauseCh is closed
 	idle   []bool
 	paused bool
 	ws     []int
@@ -257,6 +272,29 @@ func (r *c14Run) observe(gs []c14G) c14Obs {
 	o := c14Obs{paused: pause.IsPaused(), subs: pause.VerifC14Subscribers(), panic: r.panicked.Load(), tmo: r.timedOut}
 	for _, c := range r.cs {
 		o.idle = append(o.idle, !c.busy.Load())
+	}
+	cur := map[*pause.ControlChans]bool{}
+	for _, k := range pause.VerifC14Keys() {
+		cur[k] = true
+	}
+	for _, k := range r.keys0 {
+		if cur[k] {
+			continue // still subscribed: its owner reads PauseCh, we must not
+		}
+		// the owner has unsubscribed and (at quiescence) left: nobody receives from PauseCh any
+		// more, so looking at it is harmless (a stale token may come out first)
+	drain:
+		for i := 0; i < 3; i++ {
+			select {
+			case _, ok := <-k.PauseCh:
+				if !ok {
+					o.pcl++
+					break drain
+				}
+			default:
+				break drain
+			}
+		}
 	}
 	byID := map[int64]c14G{}
 	for _, g := range gs {
@@ -360,7 +398,7 @@ func c14CoqObs(o c14Obs) string {
 	for _, w := range o.ws {
 		ws = append(ws, fmt.Sprintf("%d", w))
 	}
-	return fmt.Sprintf("(Ob %s %s %s %d %s)", coqList(idle), coqBool(o.paused), coqList(ws), o.subs, coqBool(o.panic || o.tmo))
+	return fmt.Sprintf("(Ob %s %s %s %d %d %s)", coqList(idle), coqBool(o.paused), coqList(ws), o.subs, o.pcl, coqBool(o.panic || o.tmo))
 }
 
 // c14ExecLocal runs one case in this process.  leak = goroutines of the experiment are left
@@ -381,7 +419,19 @@ func c14ExecLocal(in string) (res Result, leak bool) {
 		r.cs = append(r.cs, &c14Ctl{})
 	}
 	r.quiesce() // every worker has subscribed and is in its main select
+	r.keys0 = pause.VerifC14Keys()
 
+	// timing jitter only (never an input choice): 0 .. 4 us in steps of 125 ns, from the input text
+	jr := NewRng(uint64(len(in)))
+	for _, ch := range []byte(in) {
+		jr.s = jr.s*1099511628211 + uint64(ch)
+	}
+	jitter := func() time.Duration {
+		if os.Getenv("C14_NOJITTER") != "" {
+			return 0
+		}
+		return time.Duration(jr.Intn(33)) * 125 * time.Nanosecond
+	}
 	var terms []string
 	pausedLive, afterPause, conc, nP, nR, nS := false, false, false, 0, 0, 0
 	cancelled := make([]bool, len(stages))
@@ -413,7 +463,7 @@ func c14ExecLocal(in string) (res Result, leak bool) {
 					afterPause = afterPause || pausedLive
 				}
 				ready.Add(1)
-				go c14Caller(r, c, op.kind == 'R', start, &ready)
+				go c14Caller(r, c, op.kind == 'R', start, &ready, jitter())
 			case 'S':
 				stops = append(stops, op.arg)
 			case 'X':
@@ -424,7 +474,7 @@ func c14ExecLocal(in string) (res Result, leak bool) {
 		}
 		for _, i := range stops {
 			ready.Add(1)
-			go c14Stopper(r.ws[i].cancel, start, &ready)
+			go c14Stopper(r.ws[i].cancel, start, &ready, jitter())
 			cancelled[i] = true
 			nS++
 			afterPause = afterPause || pausedLive
@@ -535,7 +585,7 @@ func execPause(in string) Result {
 		c14Cur.stop()
 		c14Cur = nil
 		if attempt == 1 {
-			return Result{Term: "PC 0 0 [([], (Ob [] false [] 0 true))]", Tags: []string{"child-crashed"}}
+			return Result{Term: "PC 0 0 [([], (Ob [] false [] 0 0 true))]", Tags: []string{"child-crashed"}}
 		}
 	}
 	res, _ := c14ExecLocal(in)
